@@ -12,7 +12,7 @@ N_THOROUGH = 6000
 THOROUGH_EXHAUSTIVE = True
 RULE = ('cases = corpus + random (data 0..48 bytes, Content-Length below/equal/above the data and negative, '
         'buffer 1..12, fragmentation schedules of short reads, early EOF, optional max_body_size), run through '
-        '_body_read directly and through Request.body, a fifth of them with a multipart Content-Type (closing delimiter + epilogue: the markup is fed while buffering); thorough adds every schedule of length <= 5 over read '
+        '_body_read directly and through Request.body (read twice, and again through request.copy() after a partial read), a fifth of them with a multipart Content-Type (closing delimiter + epilogue: the markup is fed while buffering); thorough adds every schedule of length <= 5 over read '
         'caps {1,2,3,full} x body sizes 0..10 x buffers 1..4 x CL in {len-1,len,len+2} (exhaustive). '
         'non-trivial = at least two reads were issued and at least one of them was short or the body spilled; '
         'distinct by (len, cl, buf, schedule prefix actually consumed, via)')
@@ -43,6 +43,9 @@ def corpus():
         dict(data=list(MP_BODY + b'\r\nepilogue'), cl=len(MP_BODY) + 10, buf=4096, sched=[len(MP_BODY) - 1], maxb=None,
              via='request', mp=True),
         dict(data=list(MP_BODY + b'\r\n'), cl=len(MP_BODY) + 2, buf=16, sched=[0] * 200, maxb=None, via='func', mp=True),
+        # a copy of the request taken after the body was (partly) read presents the same body
+        dict(data=d20, cl=20, buf=8, sched=[], maxb=None, via='request', copy_after=7),
+        dict(data=d20, cl=20, buf=64, sched=[2, 2], maxb=None, via='request', copy_after=20),
     ]
 
 
@@ -70,6 +73,8 @@ def gen(rng, n):
         if rng.random() < 0.15:
             maxb = rng.randrange(0, 50)
         case = dict(data=data, cl=cl, buf=buf, sched=sched, maxb=maxb, via=rng.choice(['func', 'request']))
+        if case['via'] == 'request' and rng.random() < 0.3:
+            case['copy_after'] = rng.choice([0, 1, 3, ln, ln + 5])
         if rng.random() < 0.2:
             # a multipart body (markup is fed while buffering): closing delimiter followed by an epilogue
             ep = bytes(rng.choice([13, 10, 45, 66, 120]) for _ in range(rng.randrange(0, 12)))
@@ -132,6 +137,12 @@ def run_impl(case):
         c2 = rq.body.read()          # second access: cached, rewound
         if c1 != c2:
             return dict(status='unstable', first=list(c1), second=list(c2))
+        if case.get('copy_after') is not None:
+            # the application reads part of the body, then works on a copy of the request
+            rq.body.read(case['copy_after'])
+            c3 = rq.copy().body.read()
+            if c3 != c1:
+                return dict(status='unstable', first=list(c1), second=list(c3), where='request.copy()')
     except HTTPError as e:
         return dict(status='too_large' if e.status_code == 413 else 'http_%d' % e.status_code,
                     reqs=st.log, pos=st.pos)
@@ -192,7 +203,7 @@ def nontrivial(case, obs):
 
 def key(case):
     return (len(case['data']), case['cl'], case['buf'], tuple(case['sched'][:8]), case['via'], case['maxb'],
-            bool(case.get('mp')))
+            bool(case.get('mp')), case.get('copy_after'))
 
 
 def classify(case, obs):
